@@ -18,5 +18,6 @@ TECH = {
  "C11": "type-graph isolation, constructor who-may-call tables, package-level write audit, config aliasing and dict freshness analysis (static analysis)",
  "C18": "table agreement between URI constants, registry and handlers (external WAMP meta API table), error-URI set audit, owner confinement, meta-event guard/order obligations (static analysis)",
  "C20": "untrusted-any numeric-assertion sink analysis, retention and save guard obligations (edge cut), ring-buffer and filter-order must-pass obligations (static analysis)",
+ "C19": "regular-language equivalence of the URI patterns with reference languages (product construction over compiled regexp programs), dispatch enumeration, guard obligations with constants (static analysis)",
  "C03": "SSA edge-cut guard obligations, switch/case-set agreement, INVOCATION provenance (static analysis)",
 }
